@@ -155,7 +155,7 @@ def multi_unit():
         Inst(f'{M}.intersects_shape', 'intersectsMulti', [('self', 'List μ'), ('shape', 'List σ')], 'Bool'),
         # round 2
         Inst(f'{M}.bounds', 'bounds', [('self', 'List μ')], 'Except Tuple4 R'),
-        Inst(f'{M}.__iter__', 'iter', [('self', 'List μ')], 'List μ'),
+        Inst(f'{M}.__iter__', 'iter', [('self', 'List μ')], 'Iter μ'),
         # `split` creates objects and stores into them: it takes the heap of property dictionaries and returns (heap, shapes);
         # the receiver is (members, dt, address of `_properties`)
         Inst(f'{M}.split', 'split', [('self', 'MultiH')], 'Heap List Shp'),
@@ -164,27 +164,44 @@ def multi_unit():
     py2lean.LEAN_TYPE.setdefault('MultiH', 'List (GV.Multi.Shp γ) × Option GV.TI × Nat')
     py2lean.LEAN_TYPE.setdefault('Shp', 'GV.Multi.Shp γ')
     py2lean.LEAN_TYPE.setdefault('DictRef', 'Nat')
+    py2lean.LEAN_TYPE.setdefault('Iter μ', 'List μ')
+
+    class Known(set):
+        """classes an abstract type is known to be an instance of; `.no`: known not to be; any other class is undecided"""
+        def __init__(self, yes, no):
+            super().__init__(yes)
+            self.no = set(no)
 
     def isinstance_hook(typ):
-        return {'List σ': {'MultiShapeBase'}, 'List μ': {'MultiShapeBase'}, 'σ': {'SingleShapeBase'}, 'κ': {'Coordinate'}}.get(typ)
+        single = Known({'SingleShapeBase', 'BaseShape', 'BaseShapeProtocol'}, {'MultiShapeBase', 'Coordinate'})
+        multi = Known({'MultiShapeBase', 'BaseShape', 'BaseShapeProtocol'}, {'SingleShapeBase', 'Coordinate'})
+        return {'List σ': multi, 'List μ': multi, 'MultiH': multi, 'σ': single, 'μ': single,
+                'κ': Known({'Coordinate'}, {'MultiShapeBase', 'SingleShapeBase', 'BaseShape', 'BaseShapeProtocol'})}.get(typ)
 
     abstract = {
         ('μ', 'contains_coordinate', ('κ',)): ('rc {} {}', 'Bool'),
         ('μ', 'contains_shape', ('σ',)): ('rs {} {}', 'Bool'),
         ('μ', 'intersects_shape', ('σ',)): ('ri {} {}', 'Bool'),
-        ('List μ', '__iter__', ()): ('{}', 'List μ'),
+        ('List μ', '__iter__', ()): ('{}', 'Iter μ'),          # an iterator can only be handed on (it is consumed by use)
         # objects: a member's `.copy()` is the model's `copyMember` (same geometry, copied `dt`, a *new* dictionary holding
         # a deep copy of the properties); `dict.copy()` allocates a new dictionary with the same items
         ('Shp', 'copy', ()): ('GV.Multi.copyMember {h} {0}', 'Heap Shp'),
         ('DictRef', 'copy', ()): ('GV.Multi.Heap.alloc {h} (GV.Multi.Heap.read {h} {0})', 'Heap DictRef'),
     }
+    def iter_of(tr, args):
+        # `iter(xs)`: an iterator — a value that can only be handed on (looping over it would consume it)
+        if [x.typ for x in args] != ['List μ']:
+            raise Unsupported('iter(' + ', '.join(x.typ for x in args) + ')')
+        return Val(args[0].text, 'Iter μ')
+
     return Unit('SrcMulti', src, 'GV.Src.Multi', ['GeoVerif.Model.Multi', 'GeoVerif.Model.PyColl'], insts,
                 {'List μ': M, 'List σ': M, 'MultiH': M}, header='variable {μ σ κ γ : Type}',
                 attr_types={('List μ', 'geoshapes'): ('{}', 'List μ'), ('List σ', 'geoshapes'): ('{}', 'List σ'),
                             ('μ', 'bounds'): ('(bnd {})', 'Tuple4 R'),
                             ('MultiH', 'geoshapes'): ('{}.1', 'List Shp'), ('MultiH', 'dt'): ('{}.2.1', 'Opt TI'),
                             ('MultiH', '_properties'): ('{}.2.2', 'DictRef')},
-                hooks={'isinstance': isinstance_hook,
+                intrinsics={'iter': iter_of},
+                hooks={'isinstance': isinstance_hook, 'decorators': {f'{M}.bounds': ['property']},
                        'stores': {('Shp', '_properties'): ('props', 'DictRef'), ('Shp', 'dt'): ('dt', 'Opt TI')}},
                 ctx_params=[('rc', 'μ → κ → Bool'), ('rs', 'μ → σ → Bool'), ('ri', 'μ → σ → Bool'),
                             ('bnd', 'μ → Rat × Rat × Rat × Rat')], abstract=abstract)
